@@ -73,7 +73,17 @@ def run_job(job):
             wire = bool(rnd.getrandbits(1))
             ksf = modes[wi % len(modes)]
             wseed = proto.H("c01w", su, job["shard"], job["seed"], wi)
-            rng = s.rng("r", wseed)
+            # random tapes: one RNG shared by all parties; separate client/server RNGs that happen to be seeded identically
+            # (so that nonces / key-share seeds of the two sides coincide); constant-byte tapes
+            tapes = ["shared", "shared", "same-seed", "shared", "constant-0x01", "shared", "same-seed"][wi % 7]
+            if tapes == "shared":
+                rng = rng_c = rng_s = s.rng("r", wseed)
+            elif tapes == "same-seed":
+                rng_c, rng_s = s.rng("rc", wseed), s.rng("rs", wseed)
+                rng = rng_s
+            else:
+                rng_c, rng_s = s.rng("rc", wseed, b"\x01" * 4096), s.rng("rs", wseed, b"\x01" * 4096)
+                rng = rng_s
             st = s.cmd("setup_new", rng=rng, out="S")
             evals += 1
             if st.failed:
@@ -100,13 +110,14 @@ def run_job(job):
             if route in ("new_with_key", "external-key") and rr.pk != spk:
                 viol.append({"sig": "C01 setup rebuilt around the same key reports another public key", "what": "%s: %s vs %s" % (su, rr.pk, spk)})
             stats["by_class"]["setup:" + route] = stats["by_class"].get("setup:" + route, 0) + 1
+            stats["by_class"]["tapes:" + tapes] = stats["by_class"].get("tapes:" + tapes, 0) + 1
             # registration: "DEFAULT" identity = absent at registration, explicit spelling at login
             ru = None if idu[1] == "DEFAULT" else idu[1]
             rs = None if ids_[1] == "DEFAULT" else ids_[1]
-            reg = proto.register(s, rng, "S", pw[1], cred[1], id_u=ru, id_s=rs, ksf=ksf, wire=wire, tag="g")
+            reg = proto.register(s, rng_c, "S", pw[1], cred[1], id_u=ru, id_s=rs, ksf=ksf, wire=wire, tag="g")
             desc = (pw[0], cred[0], idu[0], ids_[0], ctx[0], wire, str(ksf), route)
             case = {"suite": su, "world": wi, "pw": pw[0], "cred": cred[0], "id_u": idu[0], "id_s": ids_[0],
-                    "ctx": ctx[0], "wire": wire, "ksf": ksf, "setup_route": route}
+                    "ctx": ctx[0], "wire": wire, "ksf": ksf, "setup_route": route, "tapes": tapes}
             evals += len(reg.steps)
             if not reg.ok:
                 viol.append({"sig": "C01 registration step failed %s" % reg.failed_at,
@@ -116,7 +127,10 @@ def run_job(job):
             if idu[1] == "DEFAULT":
                 lu = bytes.fromhex(reg.rupl)[:sz.npk]
             ls = bytes.fromhex(spk) if ids_[1] == "DEFAULT" else ids_[1]
-            lg = proto.login(s, rng, rng, "S", reg.file_h, pw[1], cred[1], ctx_c=ctx[1], ctx_s=ctx[1], id_u_c=lu, id_s_c=ls,
+            if tapes == "same-seed":
+                # both parties start the login from identically seeded generators (draws of equal sizes then coincide)
+                rng_c, rng_s = s.rng("rc", proto.H(wseed, "login")), s.rng("rs", proto.H(wseed, "login"))
+            lg = proto.login(s, rng_c, rng_s, "S", reg.file_h, pw[1], cred[1], ctx_c=ctx[1], ctx_s=ctx[1], id_u_c=lu, id_s_c=ls,
                              id_u_s=lu, id_s_s=ls, ksf=ksf, wire=wire, tag="l")
             evals += len(lg.steps)
             stats["worlds"] += 1
